@@ -202,7 +202,7 @@ func (s *sys) rx(etherType uint16, src net.HardwareAddr, payload []byte) {
 
 // ---------------------------------------------------------------- alphabet
 
-var sessionKinds = []string{"LCP-CR", "LCP-Ack", "LCP-Nak", "LCP-TR", "LCP-Echo", "PAP-good", "PAP-bad", "IPCP-CR(0)", "IPCP-CR(assigned)", "IPCP-CR(foreign)", "IPCP-Ack", "IP"}
+var sessionKinds = []string{"LCP-CR", "LCP-Ack", "LCP-Nak", "LCP-TR", "LCP-Echo", "PAP-good", "PAP-bad", "IPCP-CR(0)", "IPCP-CR(assigned)", "IPCP-CR(foreign)", "IPCP-Ack", "IPV6CP-CR", "IP"}
 
 // liveTargets: the ids of all live sessions (a station may hold several: every
 // PADR creates one). Ids are handed out sequentially, so they are deterministic.
@@ -369,6 +369,9 @@ func (s *sys) Apply(op string) string {
 		s.rx(pppoe.EtherTypePPPoESession, src, session(sid, pppoe.ProtocolIPCP, cp(1, s.ident, opt(3, foreignIP...))))
 	case "IPCP-Ack":
 		s.rx(pppoe.EtherTypePPPoESession, src, session(sid, pppoe.ProtocolIPCP, cp(2, 1, opt(3, 10, 0, 0, 1))))
+	case "IPV6CP-CR":
+		// a dual-stack client's IPv6CP Configure-Request (Interface-Identifier option)
+		s.rx(pppoe.EtherTypePPPoESession, src, session(sid, pppoe.ProtocolIPv6CP, cp(1, s.ident, opt(1, 0x02, 0, 0, 0xff, 0xfe, 0, 0, 0x0a))))
 	case "IP":
 		s.rx(pppoe.EtherTypePPPoESession, src, session(sid, pppoe.ProtocolIP, []byte{0x45, 0, 0, 20, 0, 0, 0, 0, 64, 17, 0, 0, 10, 0, 0, 2, 8, 8, 8, 8}))
 	default:
@@ -423,6 +426,14 @@ func (s *sys) observe(op, kind, snd string, target uint16) string {
 			}
 			if c == 3 && !s.authOK[sid] && hasOpt(p[12:], 3) {
 				s.v("M3-ipcp-nak-address-before-auth", kind, "IPCP Configure-Nak carrying an address emitted for session %d which has not authenticated", sid)
+			}
+		case pppoe.ProtocolIPv6CP:
+			// the IPv6 network-control protocol is IP-layer negotiation just as IPCP is
+			if c == 2 && !s.authOK[sid] {
+				s.v("M3-ipv6cp-ack-before-auth", kind, "IPv6CP Configure-Ack emitted for session %d which has not authenticated", sid)
+			}
+			if c == 3 && !s.authOK[sid] && hasOpt(p[12:], 1) {
+				s.v("M3-ipv6cp-nak-interface-id-before-auth", kind, "IPv6CP Configure-Nak carrying an interface identifier emitted for session %d which has not authenticated", sid)
 			}
 		}
 	}
